@@ -10,7 +10,8 @@ if [ -f "$SRC/confirm.txt" ]; then C=$(tail -1 "$SRC/confirm.txt"); else C=$(/ve
 echo "$ID-$NAME: $C"
 case "$C" in CONFIRMED*) ;; *) exit 1;; esac
 mkdir -p "$DST"; cp "$SRC/patch.diff" "$SRC/demo.rs" "$DST/"
-E=$(/verif/selftest/eval_seeded.sh "$SRC" "$ID" 2>&1 | tail -1)
+# evaluation in a private slot (own worktree of /repo HEAD and own evidence directory)
+E=$(/verif/selftest/slot_eval.sh "${CONFIRM_SLOT:-9}" "$SRC" "$ID" 2>&1 | tail -1)
 echo "$ID-$NAME: $E"
 python3 - "$SRC/meta.json" "$DST/meta.json" "$ID" "$C" "$E" <<'PY'
 import json,sys
@@ -19,7 +20,7 @@ try: m=json.load(open(src))
 except Exception: m={}
 m['property']=pid
 m['confirmed_by_maintainer_of_verif']=conf
-m['ran']=[f"selftest/confirm_seeded.sh (scratch worktree: demo passes without / fails with the change; suite 464 passed, 1 failed)", f"selftest/eval_seeded.sh <dir> {pid}  (git -C /repo apply; ./run.sh {pid} quick; git -C /repo checkout -- .)"]
+m['ran']=[f"selftest/confirm_seeded.sh (scratch worktree: demo passes without / fails with the change; suite 464 passed, 1 failed)", f"selftest/slot_eval.sh <slot> <dir> {pid}  (private worktree of /repo HEAD with the change applied; harness rebuilt against it; hv {pid} --tier quick)"]
 m['owning_check_quick']=ev
 json.dump(m,open(dst,'w'),indent=1)
 PY
